@@ -18,6 +18,7 @@ LEVEL_TEXT = ("Determinism and isolation rules on the resolved program: (E4) eve
 LEVEL_NOTE = ("Not decided: bit-identical results across processes as an observed fact; determinism and thread-safety of tree-sitter and regex "
               "themselves.  Known limitation recorded in DESIGN.md: syntax-node ids are address-derived, so the iteration order of a *set of "
               "syntax nodes* can differ between two parses of the same source (value level, not decidable by these rules).")
+LEVEL_TEXT += (' (E4.id) no format argument derives from an address-derived syntax-node id.')
 
 WITNESSES = ["W1"]
 
@@ -44,6 +45,7 @@ def run(prog, rep):
     rep.floor("E4", n, 6, "hash iterations")
     rep.rule("E4.g", "no static mut, no static with interior mutability, no thread_local!")
     e4.run_e4g(prog, rep)
+    e4.no_address_in_text(prog, rep)
     # positive control for E4.g: the detector recognises interior-mutable type names
     # I: entry points take &self
     rep.rule("C12.I", "a loaded file cannot change: execution entry points borrow it shared, its types hold no interior mutability, and only parser/checker write AST fields")
